@@ -51,11 +51,14 @@ TSingle == /\ ~done /\ l <= TLen /\ Trace[l].op \in SingleOps
 \* operations issued concurrently from separate goroutines on distinct pods; observed at quiescence
 TPar    == IsEvent("par") /\ AllOK(Cur, Ev.ops, 1) /\ Becomes(ApplyAll(Cur, Ev.ops, 1)) /\ ObsOK(Ev)
 TNode   == IsEvent("node") /\ NodeDelta(Vec(Ev.delta)) /\ ObsOK(Ev)
+\* C19 (quota part): crash + restart. The events after it come from the FRESH manager fed the persisted objects in an
+\* arbitrary informer order with duplicate adds / same-allocation updates; its figures must be the from-scratch ones.
+TRestart == IsEvent("restart") /\ Becomes(RestartF(Cur)) /\ ObsOK(Ev)
 TSkip   == /\ ~done /\ l <= TLen /\ Trace[l].op \in {"resetAll", "rebuild"}
            /\ l' = l + 1 /\ UNCHANGED <<seg, done>>
            /\ Skip /\ ObsOK(Ev)
 
 TraceInit == \E i \in Starts : TraceStart(i) /\ Init
-TraceNext == TSingle \/ TPar \/ TNode \/ TSkip \/ (SegDone /\ UNCHANGED vars)
+TraceNext == TSingle \/ TPar \/ TNode \/ TRestart \/ TSkip \/ (SegDone /\ UNCHANGED vars)
 TraceSpec == TraceInit /\ [][TraceNext]_<<vars, tvars>>
 =============================================================================
